@@ -43,13 +43,16 @@ inductive RecvRes where
   | ioErr                   -- the transport's error is returned
   | eof                     -- `io.EOF` / `io.ErrUnexpectedEOF` from the `n == 0` branch
   | tooBig                  -- "Message is too big"
-  | fuel
+  | fuel                    -- model artefact: the loop ran out of fuel (`recv_never_fuel`: never happens)
   deriving Repr, DecidableEq, Inhabited
 
 structure RecvOut where
   res : RecvRes
   t   : Transport          -- transport after the call (what the next `Recv` will see)
-  cap : Nat                -- capacity of the receive buffer when the call returned
+  cap : Nat                -- capacity REQUESTED for the receive buffer when the call returned: the initial
+                           -- capacity, or the `need` handed to `slices.Grow`. Go's `Grow` may round the real
+                           -- capacity up (amortised growth, size classes); the harness observes the real
+                           -- capacity at every `Read` and checks `cap ≤ real ≤ 2·cap + 4096`.
   deriving Repr, Inhabited
 
 /-- the `for` loop of `Recv`. `buf` is `buf[:read]`; `cap` its capacity. Data returned by a `Read` is
@@ -70,20 +73,23 @@ def recvLoop (max : Nat) : Nat → Transport → Bytes → Nat → Nat → RecvO
       else if err then { res := .ioErr, t := t', cap := cap }
       else recvLoop max fuel t' buf need cap
 
-/-- `Stream.Recv`. -/
-def recv (max : Nat) (t : Transport) : RecvOut :=
-  recvLoop max (t.wire.length + t.sched.length + 2) t [] 8 512
+/-- `Stream.Recv`. `c0` is the capacity of the buffer every call starts with (`make([]byte, 512)` today;
+    the harness reads it off the first `Read` of every call and passes it on the protocol line, the
+    theorems hold for every value). `max` is `Stream.max` when it is positive and `0` ("no limit") when
+    it is zero or negative — the code tests `s.max > 0`; the client passes `-1`. -/
+def recv (c0 max : Nat) (t : Transport) : RecvOut :=
+  recvLoop max (t.wire.length + t.sched.length + 2) t [] 8 c0
 
-/-- receive `n` messages in sequence (stops at the first failure). -/
-def recvAll (max : Nat) : Nat → Transport → List Bytes × RecvRes × Transport
-  | 0, t => ([], .fuel, t)
+/-- receive `n` messages in sequence; stops at the first failure (`some r`), `none` = all `n` received. -/
+def recvAll (c0 max : Nat) : Nat → Transport → List Bytes × Option RecvRes × Transport
+  | 0, t => ([], none, t)
   | n + 1, t =>
-    let o := recv max t
+    let o := recv c0 max t
     match o.res with
     | .msg bs =>
-      let (ms, r, t') := recvAll max n o.t
+      let (ms, r, t') := recvAll c0 max n o.t
       (bs :: ms, r, t')
-    | r => ([], r, o.t)
+    | r => ([], some r, o.t)
 
 /-- A byte string is one complete TTLV frame: header plus exactly the announced padded length. -/
 def Framed (m : Bytes) : Prop := 8 ≤ m.length ∧ m.length = computeNeededBytes m
